@@ -507,7 +507,8 @@ class Prop:
     rule = ("plain and typed trees: every ordered forest with <= N nodes (N=4 quick, 5 thorough) x 6 label patterns "
             "(all distinct; clones across branches; a descendant that is a clone of its ancestor; int data_ids incl. 0; "
             "explicit str data_ids incl. ''; one shared explicit id), plain and typed for <= 3 nodes, alternating plain / "
-            "typed over patterns and shapes above (quick: all patterns, thorough: the two id patterns), plus seeded random "
+            "typed over patterns and shapes above (quick: all patterns and 4 of 6 patterns per 4-node shape, thorough: the two id "
+            "patterns), plus seeded random "
             "trees of 5..12 nodes over a small label alphabet; for each tree: the whole tree (Tree API) and every node "
             "(small trees) or 3 sampled nodes (random trees) as start x DOT/Mermaid structure (unique_nodes x "
             "add_self/add_root) and RDF (add_self on/off; tree); plus 2-3 whole Mermaid charts (markdown, direction, "
@@ -548,8 +549,8 @@ class Prop:
               "harness parsers (strict: an unknown line is a harness error), generators and oracle; rdflib term equality. "
               "Quoting/escaping of keys and names is not modelled (two data_ids printing alike, e.g. 1 and '1', collide in DOT; "
               "int keys are proved to print injectively).  Callable Mermaid mappers are exercised only through callables "
-              "equivalent to a template; RDF node_mapper is left at None.  Defects D36 (dot.py), D37 (rdf.py) and D171 "
-              "(mermaid.py: node template overwritten by the edge template) are repaired by fixes/D36.diff, D37.diff, "
+              "equivalent to a template; the RDF node_mapper answers None or False only.  Defects D36 (dot.py), D37 and D172 (rdf.py) and D171 "
+              "(mermaid.py: node template overwritten by the edge template) are repaired by fixes/D36.diff, D37.diff, D172.diff, "
               "D171.diff; the theorems are about the repaired code, the pre-repair behaviour of D36/D37 is kept in the model "
               "under fx=false with refutation theorems."),
         technique="Coq proof about an executable Gallina model + differential correspondence check (vm_compute) + Python oracle",
@@ -619,11 +620,14 @@ class Prop:
                     for typed in (False, True):
                         if n >= 4 and (pat in ("ints", "strids") or tier == "quick") and typed != ((pi + si) % 2 == 0):
                             continue   # thin out: alternate plain / typed over patterns and shapes
+                        if n >= 4 and tier == "quick" and (pi + si) % 3 == 2:
+                            continue   # quick: 4 of the 6 patterns per 4-node shape, rotating
                         univ, nodes = self.label(pat, shape, typed)
                         ci += 1
                         charts = [[0, CHART_OPTS[ci % len(CHART_OPTS)]], [1, CHART_OPTS[(ci // 2 + 3) % len(CHART_OPTS)]]]
                         docs = [[ci % 2, DOT_OPTS[ci % len(DOT_OPTS)]], [(ci + 1) % 2, DOT_OPTS[(ci // 3 + 2) % len(DOT_OPTS)]]][:2 if n <= 3 else 1]
-                        yield dict(typed=typed, univ=univ, nodes=nodes, starts="all", charts=charts, docs=docs)
+                        rdf_skip = [k for k in range(1, n + 1) if (k + ci) % 3 == 0]
+                        yield dict(typed=typed, univ=univ, nodes=nodes, starts="all", charts=charts, docs=docs, rdf_skip=rdf_skip)
         nrand = 40 if tier == "quick" else 400
         for _ in range(nrand):
             n = rng.randint(5, 12)
@@ -647,12 +651,16 @@ class Prop:
                 e=rng.choice([[], [["color", "blue"]]]),
                 nm=rng.choice([None, ["label", "X"], ["color", "red"]]),
                 em=rng.choice([None, ["label", "E"], ["style", "dashed"]]))] for _ in range(2)]
-            yield dict(typed=typed, univ=univ, nodes=nodes, starts=[0] + starts, charts=charts, docs=docs)
+            rdf_skip = sorted(rng.sample(range(1, n + 1), rng.randint(0, min(4, n))))
+            yield dict(typed=typed, univ=univ, nodes=nodes, starts=[0] + starts, charts=charts, docs=docs, rdf_skip=rdf_skip)
 
     def shrink_candidates(self, desc):
         for nodes in B.drop_one_node(desc["nodes"]):
             yield dict(desc, nodes=nodes, starts="all", charts=[[min(i, 1), o] for i, o in desc.get("charts", [])],
-                       docs=[[min(i, 1), o] for i, o in desc.get("docs", [])])
+                       docs=[[min(i, 1), o] for i, o in desc.get("docs", [])],
+                       rdf_skip=[i for i in desc.get("rdf_skip", []) if i <= 1])
+        if desc.get("rdf_skip"):
+            yield dict(desc, rdf_skip=desc["rdf_skip"][1:])
         for k in range(len(desc.get("docs", []))):
             yield dict(desc, docs=desc["docs"][:k] + desc["docs"][k + 1:])
         for k in range(len(desc.get("charts", []))):
@@ -668,13 +676,14 @@ class Prop:
         else:
             starts = [None if i == 0 else nodes[i - 1] for i in desc["starts"] if i <= len(nodes)]
         kt = KeyTable(tree)
+        skip = frozenset(H.nid(nodes[i - 1]) for i in desc.get("rdf_skip", []) if 1 <= i <= len(nodes))
         first = H.nid(nodes[0]) if nodes else 1
         obs, fail = [], None
         for st in starts:
-            native = self.observe(tree, st, kt)
+            native = self.observe(tree, st, kt, skip)
             obs.append(self.to_obs(native))
             if fail is None:
-                fail = self.oracle(tree, st, typed, native)
+                fail = self.oracle(tree, st, typed, native, skip)
                 if fail:
                     fail = f"{fail} [start={'tree' if st is None else H.nid(st) - first + 1}]"
         chart_obs, chart_terms = [], []
@@ -703,20 +712,20 @@ class Prop:
                     fail = f"{fail} [start={i}]"
         obs = [obs, chart_obs, doc_obs]
         coq = (f"({H.coq_rt(tree._root, U)}, {H.coq_list(H.z(0 if s is None else H.nid(s)) for s in starts)}, "
-               f"{H.coq_list(chart_terms)}, {H.coq_list(doc_terms)})")
+               f"{H.coq_list(chart_terms)}, {H.coq_list(doc_terms)}, {H.coq_list(H.z(i) for i in sorted(skip))})")
         dids = Counter((type(n._data_id).__name__, n._data_id) for n in nodes)
         anc_clone = any(_has_desc_clone(n) for n in nodes)
         return Case(desc=desc, coq_input=coq, impl_obs=obs, oracle_fail=fail,
                     nontrivial=len(nodes) >= 2,
-                    key=H.digest([desc["nodes"], typed, desc["starts"], desc.get("charts"), desc.get("docs")]),
-                    stats=dict(nodes=len(nodes), starts=len(starts), charts=len(chart_obs), docs=len(doc_obs),
+                    key=H.digest([desc["nodes"], typed, desc["starts"], desc.get("charts"), desc.get("docs"), desc.get("rdf_skip")]),
+                    stats=dict(nodes=len(nodes), starts=len(starts), charts=len(chart_obs), docs=len(doc_obs), rdf_mapper_false=len(skip),
                                chart_errors=sum(1 for c in chart_obs if c == -1),
                                clones=sum(1 for v in dids.values() if v > 1),
                                start_clone_below=anc_clone, typed=typed,
                                falsy_ids=sum(1 for n in nodes if not n._data_id)))
 
     # ----- observe the implementation: native structures (or ("ERR", cls))
-    def observe(self, tree, st, kt):
+    def observe(self, tree, st, kt, skip=frozenset()):
         name = tree.name
         dots, mers = [], []
         for u, a in COMBOS:
@@ -740,8 +749,14 @@ class Prop:
         if st is None:
             rdfs = [call(lambda: parse_rdf(tree.to_rdf_graph()))]
         else:
+            def mapper(graph, graph_node, tree_node):
+                # "node_mapper wants to prevent adding standard attributes": False for the chosen nodes, None otherwise
+                return False if H.nid(tree_node) in skip else None
+
             rdfs = [call(lambda: parse_rdf(st.to_rdf_graph(add_self=True))),
-                    call(lambda: parse_rdf(st.to_rdf_graph(add_self=False)))]
+                    call(lambda: parse_rdf(st.to_rdf_graph(add_self=False))),
+                    call(lambda: parse_rdf(st.to_rdf_graph(add_self=True, node_mapper=mapper))),
+                    call(lambda: parse_rdf(st.to_rdf_graph(add_self=False, node_mapper=mapper)))]
         return dots, mers, rdfs
 
     def to_obs(self, native):
@@ -759,7 +774,7 @@ class Prop:
         ]
 
     # ----- the property statement, executed on the pointer structure
-    def oracle(self, tree, st, typed, native):
+    def oracle(self, tree, st, typed, native, skip=frozenset()):
         dots, mers, rdfs = native
         start = tree._root if st is None else st
         below = B.all_nodes(start)                       # pre-order, by _children pointers
@@ -864,11 +879,10 @@ class Prop:
         def tt(t):
             return tuple(tkey(x) if isinstance(x, tuple) and x != SYS else x for x in t)
 
-        variants = [(True, None)] if st is None else [(True, 0), (False, 1)]
-        for a, _ in variants:
-            ri = 0 if st is None else (0 if a else 1)
+        variants = [(True, 0, False)] if st is None else [(True, 0, False), (False, 1, False), (True, 2, True), (False, 3, True)]
+        for a, ri, mapped in variants:
             g = rdfs[ri]
-            tag = "tree" if st is None else f"add_self={a}"
+            tag = "tree" if st is None else f"add_self={a}" + (" node_mapper answering False for some nodes" if mapped else "")
             if is_err(g):
                 return f"rdf-error: {tag}: raised {H.ERR_NAMES.get(g[1], g[1])}"
             got = {tt(t) for t in g}
@@ -883,6 +897,8 @@ class Prop:
                 if n is tree._root:
                     want.add(tt(("name", SYS, tree.name)))
                     continue
+                if mapped and H.nid(n) in skip:
+                    continue           # no standard attributes for this node; its edges stay
                 want.add(tt(("name", lit(n), n.name)))
                 if typed:
                     want.add(tt(("kind", lit(n), n.kind)))
@@ -913,6 +929,8 @@ CORPUS = [
          nodes=[[0, None, 0, [[1, None, None, []]]], [2, None, "", [[3, None, None, []]]]], starts="all"),
     # a node that shares the system root's data_id: the root's definition must not be repeated (D36 through the Tree API)
     dict(typed=False, univ=["s:a", "s:b"], nodes=[[0, None, None, [[1, None, "__root__", [[0, None, None, []]]]]]], starts="all"),
+    # D172: the RDF node_mapper answers False for a node that has children
+    dict(typed=True, univ=["s:a", "s:b"], nodes=[[0, "k", None, [[1, "k", None, []]]]], starts="all", rdf_skip=[1]),
     # D171: node_mapper and edge_mapper both given as strings
     dict(typed=True, univ=["s:a", "s:b"], nodes=[[0, "k", None, []]], starts="all",
          charts=[[0, dict(md=True, dir="BT", title=False, headers=[], add=True, uniq=False, nt=NODE_T_BRACKET, et=EDGE_T_NAMES)]]),
